@@ -25,7 +25,7 @@ def run(ctx):
     binary = ctx.go_build("c15")
     steps_f, stress_f = ctx.path("steps.ndjson"), ctx.path("stress.ndjson")
     ctx.harness(binary, ["-plans", pdir, "-out", steps_f, "-stress", stress_f, "-seed", ctx.seed,
-                         "-rand", ctx.q(110, 3000), "-nstress", ctx.q(25, 600),
+                         "-rand", ctx.q(110, 3000), "-nstress", ctx.q(25, 500),
                          "-ncold", ctx.q(50, 800)],
                 traces=[steps_f, stress_f])
     steps = ctx.load_traces(steps_f)
